@@ -245,6 +245,29 @@ func c19Eval(r *hx.Run, cs c19Case) {
 				break
 			}
 		}
+	case "mixed-list":
+		// one list holds a rule of its own and an entry that is not a rule but has rules below it: relaxed mode finds the
+		// rule and, displaced, every rule of the bare list (seeded change C19-wrapper-after-first-rule-skipped)
+		br, _, p1 := c19Rules(cs.Bare, false, 0, 0)
+		all, _, p2 := c19Rules(cs.Content, false, cs.AddLine, cs.AddCol)
+		if p1 != "" || p2 != "" {
+			r.Violate(hx.Violation{Class: "panic", Input: cs, Observed: tail(p1+p2, 1500)})
+			return
+		}
+		var wr []c19Rule
+		own := 0
+		for _, x := range all {
+			if x.Name == "own:rule" {
+				own++
+				continue
+			}
+			wr = append(wr, x)
+		}
+		r.Case(cs.Content, len(br) > 0)
+		if own != 1 || fmt.Sprint(br) != fmt.Sprint(wr) {
+			r.Violate(hx.Violation{Class: "rules-below-a-list-entry-next-to-a-rule-differ-from-bare", Input: cs, Observed: map[string]any{"bare": br, "nested_shifted_back": wr, "own_rule_found": own},
+				Expected: "the list's own rule once, and the nested rules displaced exactly by the lines and indentation above them"})
+		}
 	case "wrap":
 		br, _, p1 := c19Rules(cs.Bare, false, 0, 0)
 		wr, _, p2 := c19Rules(cs.Content, false, cs.AddLine, cs.AddCol)
@@ -392,6 +415,31 @@ func runC19(r *hx.Run, replay string) {
 		}
 		c19Eval(r, c19Case{Kind: "wrap", Content: wrapped, Bare: bare, AddLine: addLine, AddCol: len(indent)})
 		c19Corr(r, wrapped)
+
+		// a list that mixes a rule with a wrapper entry (before or after it)
+		{
+			var ml []string
+			own := []string{"- record: own:rule", "  expr: up"}
+			first := rr.Intn(2) == 0
+			add := 1
+			if first {
+				ml = append(ml, own...)
+				add = 3
+			}
+			ml = append(ml, "- nested:")
+			for _, l := range rules {
+				ml = append(ml, "    "+l)
+			}
+			if !first {
+				ml = append(ml, own...)
+			}
+			pre := ""
+			if rr.Intn(2) == 0 {
+				pre = "spec:\n"
+				add++
+			}
+			c19Eval(r, c19Case{Kind: "mixed-list", Content: pre + strings.Join(ml, "\n") + "\n", Bare: bare, AddLine: add, AddCol: 4})
+		}
 
 		// the same rules inside a literal block scalar (YAML in YAML, as in a ConfigMap): found, displaced by the lines above
 		// the block and by its indentation; inside a folded block the layout is gone and nothing may be reported on lines
